@@ -511,8 +511,41 @@ pub fn sequences(alpha: &[Op], len: usize) -> impl Iterator<Item = Case> + '_ {
     })
 }
 
+/// every life cycle of ONE key: sequences over {set 7, set x, remove, increment, incremental snapshot executed,
+/// reclaiming snapshot executed} (a snapshot with its tick counts as one letter), each followed by the kill-restart
+pub fn lifecycles(len: usize) -> impl Iterator<Item = Case> {
+    let letters: Vec<Vec<Op>> = vec![
+        vec![Op::Set { db: 0, k: "a".into(), v: "7".into() }],
+        vec![Op::Set { db: 0, k: "a".into(), v: "x".into() }],
+        vec![Op::Remove { db: 0, k: "a".into() }],
+        vec![Op::Inc { db: 0, k: "a".into(), n: 1 }],
+        vec![Op::Snapshot { db: 0, reclaim: false }, Op::Tick],
+        vec![Op::Snapshot { db: 0, reclaim: true }, Op::Tick],
+    ];
+    let n = letters.len();
+    let total = n.pow(len as u32);
+    (0..total).map(move |mut i| {
+        let mut ops = vec![];
+        for _ in 0..len {
+            ops.extend(letters[i % n].iter().cloned());
+            i /= n;
+        }
+        Case { strategies: vec!["none".to_string()], ops }
+    })
+}
+
 pub fn run(ctx: &Ctx, rep: &mut Report) {
     crate::interpose::virtual_clock(true);
+    let max_cycle = ctx.amount(6, 8) as usize;
+    for len in 2..=max_cycle {
+        if !rep.failures.is_empty() {
+            break;
+        }
+        enumerate(ctx, rep, &format!("one-key-life-cycles-len{}", len), lifecycles(len), |c| run_case(ctx, c));
+    }
+    if !rep.failures.is_empty() {
+        return;
+    }
     let n = ctx.amount(12_000, 300_000);
     explore(ctx, rep, "histories", n, case_strategy(40), |c| run_case(ctx, c));
     let alpha = small_ops();
